@@ -19,7 +19,7 @@ RULE = ('tree models (generator of C13) printed with random indentation, blank l
         'object / match, nchar = object length for object processors; processor-supplied fields kept (variants: filename only, line+col, line only, nchar only, all four) and the missing ones filled from the processed text. distinct = (tree '
         'shape, target kind, raise variant, load kind); non-trivial = target not on the first line or in the imported file')
 REQUIRED = {'errors_checked': 500, 'object_processor_errors': 150, 'match_processor_errors': 100, 'own_location_kept': 50,
-            'wrapped_foreign_exceptions': 80, 'imported_file_errors': 40, 'string_loads': 50, 'nchar_checked': 100,
+            'wrapped_foreign_exceptions': 80, 'imported_file_errors': 40, 'string_loads': 50, 'nchar_checked': 100, 'errors_of_a_subclass': 50,
             'partial_location_completed': 60, 'inner_match_of_composite_match_rule': 50,
             'inner_match_after_newline_inside_composite': 15, 'loads_with_use_regexp_group': 100}
 
@@ -166,19 +166,25 @@ def one(ctx, i, rep=None):
         node_kind = next(n['kind'] for n in T.all_nodes(roots[fi]) if n['name'] == key)
     via_abstract = (not is_match) and r.random() < 0.3
 
+    # the error class a processor raises: the base class or one of its public subclasses
+    from textx import TextXSemanticError, TextXSyntaxError
+    Err = r.choice([TextXError, TextXError, TextXSemanticError, TextXSyntaxError])
+    if Err is not TextXError:
+        ctx.count('errors_of_a_subclass')
+
     def fail(x):
         if variant == 'plain':
-            raise TextXError('processor says no')
+            raise Err('processor says no')
         if variant == 'own_full':
-            raise TextXError('processor says no', line=99, col=98, nchar=7, filename='own.file')
+            raise Err('processor says no', line=99, col=98, nchar=7, filename='own.file')
         if variant == 'own_partial':
-            raise TextXError('processor says no', filename='own.file')
+            raise Err('processor says no', filename='own.file')
         if variant == 'own_linecol':
-            raise TextXError('processor says no', line=99, col=98)
+            raise Err('processor says no', line=99, col=98)
         if variant == 'own_line':
-            raise TextXError('processor says no', line=99)
+            raise Err('processor says no', line=99)
         if variant == 'own_nchar':
-            raise TextXError('processor says no', nchar=7)
+            raise Err('processor says no', nchar=7)
         raise ValueError('foreign failure')
 
     def objproc(o):
